@@ -226,10 +226,12 @@ PROPS = {
         "runs": [minter(150, 6000)],
         "preds": ["C19."],
         "rule": MINTER_RULE + "; C19 additionally compares the inflation reported after a block with what the next block inside the same period/step minted",
-        "partial": ["the numeric bound |minted - y*S*dt/year| <= tolerance is checked on the implementation per block pair (C19.rate_matches_emission); "
-                    "in Coq the rate is proved to be the period's annualised amount over supply (two truncations, bracketing inequality) and to use "
-                    "the same step amount as AmountToMint"],
-        "level_text": "Coq theorems: the reported rate is zero before the start, for no-minting and for an ended exponential period; for a linear period "
+        "partial": ["the numeric theorems compare the schedule's emission in 10^-18 units with rate*supply*interval/year; the integer amount a block actually "
+                    "mints differs from it by the truncation and carry proved in C02; linear periods are taken between millisecond-aligned instants of a "
+                    "millisecond-aligned period, as the property states"],
+        "level_text": "Coq theorems (C19_linear_emission_matches_rate, C19_exponential_emission_matches_rate): for every amount, supply and instants inside one linear "
+                      "period / one step of an exponential period, emission(t1,t2] and rate*supply*(t2-t1)/year differ by less than one 10^-18 unit plus "
+                      "(supply+1)*(t2-t1)/year units (the 18-digit resolution of the rate times the supply). Further: the reported rate is zero before the start, for no-minting and for an ended exponential period; for a linear period "
                       "it is floor(floor(amount*year/period)/supply) with the bracketing inequality that ties rate*supply*period to amount*year; for "
                       "an exponential-step period it is the current step's epoch amount (same recurrence as AmountToMint) annualised over supply. "
                       "The Inflation query is compared with the model after every block and with the next block's actual mint.",
